@@ -91,3 +91,24 @@ fn replay_saved_inputs(c: &mut Check, property: &'static str, also: &'static [&'
         c.record_replay(&rel, last.unwrap(), &f.to_string_lossy());
     }
 }
+
+/// C35 (system part): cells of a fresh MarkSweep block, one size class per case.
+pub fn c35_system(c: &mut Check) {
+    let n = c.tier.pick(150, 3000);
+    run_e1_named(c, "fresh-block-cells", n, "C35", &[], || {
+        use proptest::prelude::*;
+        (0u16..u16::MAX, 0u8..4, 1u8..4)
+            .prop_map(|(size, v, workers)| Case { plan: "MarkSweep".into(), variant: v, heap_kb: 65536, dyn_heap: None, workers, mutators: 1, opts: vec![], copy_spin: 0, focus: "C35".into(), ops: vec![Op::MsFill { m: 0, size }] })
+            .boxed()
+    }, |v| (cv(v, "msfill_checked") > 0, vec![]));
+}
+
+fn run_e1_named(c: &mut Check, section: &str, cases: u64, property: &'static str, also: &'static [&'static str], strat: fn() -> proptest::strategy::BoxedStrategy<Case>, nt: fn(&Verdict) -> (bool, Vec<&'static str>)) {
+    let is_known = known_fn(c);
+    let threads = c.threads;
+    c.shrink_iters = 100;
+    c.section_threads(section, cases, threads, strat, move |case: &Case, _env| {
+        let res = run_case(case, TIMEOUT_S);
+        outcome_for(property, also, res, &is_known, &nt)
+    });
+}
